@@ -188,7 +188,7 @@ class Node:
         auto_init=False,
         snapshot_log_size=None,
         extra_env=None,
-        rust_log="info",
+        rust_log=os.environ.get("NODELIB_RUST_LOG", "info"),
     ):
         self.binary = binary
         self.workdir = os.path.abspath(workdir)
